@@ -434,6 +434,27 @@ class Fn(object):
             return self.cond_atoms(n['l'], False) + self.cond_atoms(n['r'], False)
         return [(s, truth)]
 
+    def assertion_nodes(self):
+        """nodes that only feed an assertion: the condition of a branch one of whose successors immediately calls
+        assertion_failure (debug configurations expand __TBB_ASSERT to `cond ? (void)0 : assertion_failure(...)`)"""
+        if '_assert' in self._reach_cache:
+            return self._reach_cache['_assert']
+        out = set()
+        for b, blk in self.blocks.items():
+            t = blk.get('term')
+            if not t or 'c' not in t:
+                continue
+            for s in blk['succ']:
+                if s is None:
+                    continue
+                for e in self.blocks[s]['e']:
+                    if isinstance(e, int) and self.nodes[e].get('k') == 'call':
+                        d = self.callee(e)
+                        if d and d.get('n') == 'assertion_failure':
+                            out |= self.subtree(t['c'])
+        self._reach_cache['_assert'] = out
+        return out
+
     def edge_conds(self, b, si):
         """atoms known to hold on edge (b -> succ[si]); only for two-way branches"""
         blk = self.blocks[b]
